@@ -205,21 +205,24 @@ func c15(c *Ctx) {
 			reach := an.Explore(vfn, nil, nil, func(in ssa.Instruction) bool { return in == ssa.Instruction(call) })
 			var bad []string
 			for _, ret := range reach.Returns() {
-				if reach.EvalAt(ret.Results[0], ret) == an.NonNil {
-					continue
-				}
-				if call2, _ := an.ResultOfCall(ret.Results[0]); call2 != nil {
-					continue // returns another check's error
-				}
-				okRoot := false
-				for _, g := range an.Guards(ret) {
-					p := an.Path(g.Cond)
-					if (strings.Contains(p, "RootQuotaName") || strings.Contains(p, "koordinator-root-quota")) && g.Truth {
-						okRoot = true
+				for _, alt := range reach.Alts(ret) {
+					v := alt.Results[0]
+					if reach.EvalAt(v, ret) == an.NonNil || guardsSayNonNil(alt.Guards, v) {
+						continue
 					}
-				}
-				if !okRoot {
-					bad = append(bad, c.InstrPos(ret))
+					if call2, _ := an.ResultOfCall(v); call2 != nil {
+						continue // returns another check's error
+					}
+					okRoot := false
+					for _, g := range alt.Guards {
+						p := an.Path(g.Cond)
+						if (strings.Contains(p, "RootQuotaName") || strings.Contains(p, "koordinator-root-quota")) && g.Truth {
+							okRoot = true
+						}
+					}
+					if !okRoot {
+						bad = append(bad, c.InstrPos(ret))
+					}
 				}
 			}
 			r.Check(len(bad) == 0, "PATH", key, c.InstrPos(call), "evaluated on every non-root path", "a nil return at "+strings.Join(bad, ",")+" is reachable without "+name+" (the check was made conditional): e.g. a re-parent with unchanged min would skip the min-sum check against the new parent")
@@ -504,22 +507,37 @@ func c15acyclic(c *Ctx, up *ssa.Function) {
 	reach2 := an.Explore(vfn, nil, facts, nil)
 	var bad []string
 	for _, ret := range reach2.Returns() {
-		if reach2.EvalAt(ret.Results[0], ret) == an.NonNil {
-			continue
-		}
-		// nil return allowed only under the guards "name == root" or "parent == root"
-		okRoot := false
-		for _, g := range an.Guards(ret) {
-			if strings.Contains(an.Path(g.Cond), "RootQuotaName") || strings.Contains(an.Path(g.Cond), `"koordinator-root-quota"`) {
-				if bo, ok := g.Cond.(*ssa.BinOp); ok && (bo.Op == token.EQL) == g.Truth {
-					okRoot = true
+		for _, alt := range reach2.Alts(ret) {
+			v := alt.Results[0]
+			if reach2.EvalAt(v, ret) == an.NonNil || guardsSayNonNil(alt.Guards, v) {
+				continue
+			}
+			// nil return allowed only under the guards "name == root" or "parent == root"
+			okRoot := false
+			for _, g := range alt.Guards {
+				if strings.Contains(an.Path(g.Cond), "RootQuotaName") || strings.Contains(an.Path(g.Cond), `"koordinator-root-quota"`) {
+					if rel, ok := an.RelOf(g); ok && rel.Op == token.EQL {
+						okRoot = true
+					}
 				}
 			}
-		}
-		if !okRoot {
-			bad = append(bad, c.InstrPos(ret))
+			if !okRoot {
+				bad = append(bad, c.InstrPos(ret))
+			}
 		}
 	}
 	r.Check(len(bad) == 0, "ACYCLIC", key2, c.InstrPos(walkers[0]), "a nil result for a non-root parent requires the ancestor walk to have passed",
 		"validateQuotaTopology can return nil although the ancestor walk failed, at "+strings.Join(bad, ", "))
+}
+
+// guardsSayNonNil: some guard is "v != nil" (holds).
+func guardsSayNonNil(gs []an.Guard, v ssa.Value) bool {
+	for _, g := range gs {
+		if rel, ok := an.RelOf(g); ok && rel.Op == token.NEQ {
+			if (rel.X == v && an.IsNilConst(rel.Y)) || (rel.Y == v && an.IsNilConst(rel.X)) {
+				return true
+			}
+		}
+	}
+	return false
 }
